@@ -92,12 +92,16 @@ type Case struct {
 	Contention bool `json:"contention,omitempty"`
 	// Stress: no session at all - balanced Lock/Unlock pairs on the real store in a child process
 	Stress *Stress `json:"stress,omitempty"`
+	// Batch: ONE session with several real processes, each on a store of its own (batch.go)
+	Batch *BatchSpec `json:"batch,omitempty"`
 }
 
 type Obs struct {
 	Ledger []string `json:"ledger"`
 	// contention cases: Ledger[i] belongs to session Threads[i]
 	Threads []int `json:"threads,omitempty"`
+	// batch cases: one ledger per process of the batch (each process has a store of its own)
+	Ledgers [][]string `json:"ledgers,omitempty"`
 	// stress cases: pairs completed per worker and the final value of the shared counter
 	Dones   []int `json:"dones,omitempty"`
 	Counter int   `json:"counter,omitempty"`
@@ -767,6 +771,9 @@ func run(c Case) Obs {
 	if c.Stress != nil {
 		return runStress(c)
 	}
+	if c.Batch != nil {
+		return runBatch(c)
+	}
 	if len(c.Sessions) == 1 && slowSess(c.Sessions[0]) {
 		return slowFuture(c)
 	}
@@ -847,6 +854,10 @@ func child(js string) {
 		fmt.Println("CHILD_TIMEOUT")
 		os.Exit(0)
 	}()
+	if c.Batch != nil {
+		batchChild(p, c)
+		return
+	}
 	for _, s := range c.Sessions {
 		if n := p.session(s); n != "" {
 			fmt.Println("note:", n)
@@ -1001,6 +1012,8 @@ func gen(r *vgen.Rng, tier string) []Case {
 	// slow complete runs are started in the background when the first of them is reached
 	out = append(genContention(r, tier), out...)
 	out = append(out, genStress(r, tier)...)
+	// sessions with a batch of processes, each on a store of its own
+	out = append(out, genBatch(r, tier)...)
 	nseq := 40
 	if tier == "thorough" {
 		nseq = 600
@@ -1051,6 +1064,9 @@ func shareName(s string) string {
 }
 
 func coq(c Case, o Obs) string {
+	if c.Batch != nil {
+		return coqBatch(c, o)
+	}
 	if c.Stress != nil {
 		return "StoreStress " + vgen.Bool(c.Stress.Store == "frost") + " " + vgen.N(uint64(c.Stress.Workers)) + " " + vgen.N(uint64(c.Stress.Pairs)) + " " +
 			vgen.ListOf(o.Dones, func(d int) string { return vgen.N(uint64(d)) }) + " " + vgen.N(uint64(o.Counter)) + " " + vgen.Nat(o.Real)
@@ -1094,6 +1110,9 @@ func coq(c Case, o Obs) string {
 }
 
 func kindOf(c Case) string {
+	if c.Batch != nil {
+		return kindBatch(c)
+	}
 	if c.Stress != nil {
 		k := "stress/" + c.Stress.Store
 		if c.Stress.Yield {
@@ -1156,13 +1175,15 @@ func main() {
 		return
 	}
 	vgen.Main(vgen.Spec[Case, Obs]{
-		Property:   "C10",
-		RunModule:  "C10",
-		Gen:        gen,
-		Run:        run,
-		Coq:        coq,
-		Kind:       kindOf,
-		NonTrivial: func(c Case, o Obs) bool { return len(o.Ledger) > 0 || len(c.Sessions) > 0 || c.Stress != nil },
-		Rule:       "every process kind x every feasible outcome x the roles in which it can arise, each on a fresh counting store (half of them replayed on the real sync.Mutex store in a child process); every kind x {missing, corrupt, unreadable key-share file}: the signing constructors fail, keygen/resharing sessions take their usual courses; FROST signing with undecodable tweaks; random sequences of 2..7 sessions on one store, a third of the sessions on an unreadable share file, every fifth sequence replayed on the real stores; retried attempts (Run twice on the same signing object through Coordinator.handleError, three kinds of second start message); contention: a constructor-locking holder x 1..4 overlapping sessions of the kinds on its store (cancelled / timed out while waiting inside Run, waiting in their constructors, refused, retried) on a store whose Lock blocks, merged ledger with one tag per session; the state in which Execute is entered: every kind x both roles x {context already cancelled, deadline already passed}, alone, replayed on the real stores, in the sequences and as contenders; stress: 2..32 goroutines x tens of thousands of balanced LockKeyshare/UnlockKeyshare pairs with a non-atomic counter increment inside, on the REAL ECDSA and FROST store objects in a child process (stall detector, final Lock with a deadline); distinct = distinct input JSON; every case is non-trivial (a real constructor and the real Execute run in each)",
+		Property:  "C10",
+		RunModule: "C10",
+		Gen:       gen,
+		Run:       run,
+		Coq:       coq,
+		Kind:      kindOf,
+		NonTrivial: func(c Case, o Obs) bool {
+			return len(o.Ledger) > 0 || len(c.Sessions) > 0 || c.Stress != nil || c.Batch != nil
+		},
+		Rule: "every process kind x every feasible outcome x the roles in which it can arise, each on a fresh counting store (half of them replayed on the real sync.Mutex store in a child process); every kind x {missing, corrupt, unreadable key-share file}: the signing constructors fail, keygen/resharing sessions take their usual courses; FROST signing with undecodable tweaks; random sequences of 2..7 sessions on one store, a third of the sessions on an unreadable share file, every fifth sequence replayed on the real stores; retried attempts (Run twice on the same signing object through Coordinator.handleError, three kinds of second start message); contention: a constructor-locking holder x 1..4 overlapping sessions of the kinds on its store (cancelled / timed out while waiting inside Run, waiting in their constructors, refused, retried) on a store whose Lock blocks, merged ledger with one tag per session; the state in which Execute is entered: every kind x both roles x {context already cancelled, deadline already passed}, alone, replayed on the real stores, in the sequences and as contenders; stress: 2..32 goroutines x tens of thousands of balanced LockKeyshare/UnlockKeyshare pairs with a non-atomic counter increment inside, on the REAL ECDSA and FROST store objects in a child process (stall detector, final Lock with a deadline); batch: ONE session with 2..6 real processes (ECDSA + FROST resharing in both orders, keygens of both keys, batches of signings, mixed and random kinds), each on a store of its own, x {coordinator silent, global timeout, cancelled, cancelled before entry, malformed start, rejected parameters, started and failed, refused duplicate, retried}, a third under GOMAXPROCS(1), one ledger per process, a third replayed with every process on a real sync.Mutex store of its own; distinct = distinct input JSON; every case is non-trivial (a real constructor and the real Execute run in each)",
 	})
 }
